@@ -16,6 +16,15 @@ mod world;
 use arc_swap_verif_rt as rt;
 use serde_json::json;
 
+/// println! that does not panic when stdout is a closed pipe (`./check .. | head`).
+#[macro_export]
+macro_rules! outln {
+    ($($arg:tt)*) => {{
+        use std::io::Write;
+        let _ = writeln!(std::io::stdout(), $($arg)*);
+    }};
+}
+
 fn flag(args: &[String], name: &str) -> Option<String> {
     args.iter().position(|a| a == name).and_then(|i| args.get(i + 1).cloned())
 }
@@ -87,7 +96,7 @@ fn main() {
         }
         Some("list") => {
             for i in instances::all() {
-                println!("{:34} size={} props={:?}  {}", i.name, i.size, i.props, i.alphabet);
+                outln!("{:34} size={} props={:?}  {}", i.name, i.size, i.props, i.alphabet);
             }
         }
         Some("worker") => {
@@ -99,7 +108,7 @@ fn main() {
             let inst = match all.iter().find(|i| i.name == name) {
                 Some(i) => i,
                 None => {
-                    eprintln!("MACHINERY-ERROR unknown instance {}", name);
+                    eoutln!("MACHINERY-ERROR unknown instance {}", name);
                     std::process::exit(2);
                 }
             };
@@ -117,10 +126,10 @@ fn main() {
                 if inst.name == name {
                     let res = runner::replay_local(&inst, &cfg, &choices);
                     for l in &res.trace {
-                        println!("{}", l);
+                        outln!("{}", l);
                     }
                     if let Some(v) = &res.violation {
-                        println!("VIOLATION {} [{}] {}", v.property, v.oracle, v.message);
+                        outln!("VIOLATION {} [{}] {}", v.property, v.oracle, v.message);
                     }
                 }
             }
@@ -133,7 +142,7 @@ fn main() {
             let build = j["build"].as_str().unwrap_or("small");
             let mine = if cfg!(feature = "small") { "small" } else { "ship" };
             if build != mine {
-                eprintln!("MACHINERY-ERROR this replay was recorded with the '{}' build, this binary is '{}'", build, mine);
+                eoutln!("MACHINERY-ERROR this replay was recorded with the '{}' build, this binary is '{}'", build, mine);
                 std::process::exit(2);
             }
             let name = j["instance"].as_str().unwrap().to_string();
@@ -143,16 +152,16 @@ fn main() {
             let inst = all.iter().find(|i| i.name == name).expect("unknown instance");
             let res = runner::replay_local(inst, &cfg, &choices);
             for l in &res.trace {
-                println!("{}", l);
+                outln!("{}", l);
             }
             match &res.violation {
                 Some(v) => {
-                    println!("VIOLATION property={} replay={}", v.property, path);
-                    println!("  oracle={} {}", v.oracle, v.message);
+                    outln!("VIOLATION property={} replay={}", v.property, path);
+                    outln!("  oracle={} {}", v.oracle, v.message);
                     std::process::exit(1);
                 }
                 None => {
-                    println!("no violation on replay");
+                    outln!("no violation on replay");
                     std::process::exit(0);
                 }
             }
@@ -163,7 +172,7 @@ fn main() {
             let t = std::time::Instant::now();
             let d = a(4, 0);
             let r = seq::search(a(2, 3), a(3, 2), if d == 0 { None } else { Some(d) }, a(5, 16), false);
-            println!(
+            outln!(
                 "states={} transitions={} replays={} max_depth={} closed={} cas={} {:.1}s",
                 r.states,
                 r.transitions,
@@ -173,12 +182,12 @@ fn main() {
                 r.cas_transitions,
                 t.elapsed().as_secs_f64()
             );
-            println!("{:?}", r.ops_hist);
+            outln!("{:?}", r.ops_hist);
             for s in &r.samples {
-                println!("sample {}", s);
+                outln!("sample {}", s);
             }
             if let Some((p, e)) = r.violation {
-                println!("VIOLATION {:?}\n  {}", p, e);
+                outln!("VIOLATION {:?}\n  {}", p, e);
             }
         }
         Some("run") => {
@@ -192,7 +201,7 @@ fn main() {
                 }
                 let t = std::time::Instant::now();
                 let r = runner::run_local(&inst, &cfg, &[], None, deciding.as_deref(), &[]);
-                println!(
+                outln!(
                     "{:34} execs={:8} nodes={:8} steps={:10} maxsteps={:4} maxcp={:3} outcomes={:4} complete={} dev={:?} others={:?} callsteps={:?} nodes={} {:.2}s",
                     inst.name,
                     r.executions,
@@ -210,12 +219,12 @@ fn main() {
                 );
                 if let Some(v) = r.deciding.as_ref().or(r.first_other.as_ref()) {
                     bad = true;
-                    println!("  VIOLATION {} [{}] {}", v.property, v.oracle, v.message);
-                    println!("  choices={}", v.choices.iter().map(|c| c.to_string()).collect::<Vec<_>>().join(","));
+                    outln!("  VIOLATION {} [{}] {}", v.property, v.oracle, v.message);
+                    outln!("  choices={}", v.choices.iter().map(|c| c.to_string()).collect::<Vec<_>>().join(","));
                     if args.iter().any(|a| a == "--trace") {
                         let res = runner::replay_local(&inst, &cfg, &v.choices);
                         for l in &res.trace {
-                            println!("    {}", l);
+                            outln!("    {}", l);
                         }
                     }
                 }
@@ -230,7 +239,7 @@ fn main() {
                 _ => prop::Tier::Quick,
             };
             let out = seqprops::run(&p, tier);
-            println!("@@ {}", serde_json::to_string(&out).unwrap());
+            outln!("@@ {}", serde_json::to_string(&out).unwrap());
         }
         Some("prop") => {
             let t0 = std::time::Instant::now();
@@ -373,16 +382,16 @@ fn main() {
                         obj.insert("case_description".into(), json!(v.case));
                     }
                     let _ = std::fs::write(&path, serde_json::to_string_pretty(&r).unwrap());
-                    println!("VIOLATION property={} replay={}", p, path);
-                    println!("  case: {}", v.case.chars().take(300).collect::<String>());
-                    println!("  {}", v.message);
+                    outln!("VIOLATION property={} replay={}", p, path);
+                    outln!("  case: {}", v.case.chars().take(300).collect::<String>());
+                    outln!("  {}", v.message);
                     if violations >= 5 {
                         break;
                     }
                 }
             }
             for l in &known_lines {
-                println!("{}", l);
+                outln!("{}", l);
             }
             // evidence
             let empty = json!({});
@@ -433,12 +442,12 @@ fn main() {
             let path = format!("{}/{}.json", o.evidence_dir, p);
             std::fs::write(&path, serde_json::to_string_pretty(&ev).unwrap()).expect("cannot write evidence");
             for e in &machinery {
-                println!("MACHINERY-ERROR {}", e);
+                outln!("MACHINERY-ERROR {}", e);
             }
             std::process::exit(if violations > 0 { 1 } else if !machinery.is_empty() { 2 } else { 0 });
         }
         _ => {
-            eprintln!("usage: vh selftest | list | run <pattern> [cfg] | prop <Cxx> --tier quick|thorough | replay <file> | trace <instance> <choices> [cfg]");
+            eoutln!("usage: vh selftest | list | run <pattern> [cfg] | prop <Cxx> --tier quick|thorough | replay <file> | trace <instance> <choices> [cfg]");
             std::process::exit(2);
         }
     }
